@@ -2,7 +2,7 @@
 //! as Visual Studio Code.
 
 use crossbeam_channel::{Receiver, Sender};
-use log::{debug, trace};
+use log::{debug, error, trace};
 use lsp_server::{Connection, ExtractError, Message, RequestId};
 use lsp_types::{
     notification::{self, Notification, PublishDiagnostics},
@@ -142,14 +142,15 @@ impl<'a> LspServer<'a> {
 
     fn handle_request(&self, req: lsp_server::Request) -> &'static str {
         let req_id = req.id.clone();
-        let req = match Self::cast_request::<request::Shutdown>(req) {
+        let req = match self.cast_request::<request::Shutdown>(req) {
             Ok(_params) => {
                 return request::Shutdown::METHOD;
             }
             Err(req) => req,
         };
-        let _request = match Self::cast_request::<request::SemanticTokensFullRequest>(req) {
-            Ok(params) => {
+        let _request = match self.cast_request::<request::SemanticTokensFullRequest>(req) {
+            Ok(None) => return request::SemanticTokensFullRequest::METHOD,
+            Ok(Some(params)) => {
                 let uri = params.text_document.uri;
                 let token_result = self.project.tokenize(&uri);
 
@@ -186,18 +187,33 @@ impl<'a> LspServer<'a> {
         ""
     }
 
-    fn cast_request<T>(request: lsp_server::Request) -> Result<T::Params, lsp_server::Request>
+    /// Casts the request into the parameters for the method `T`.
+    ///
+    /// Returns `Err` with the request if the request is for another method. Returns
+    /// `Ok(None)` if the request is for the method but the parameters are not valid (in
+    /// which case this has already sent the error response).
+    fn cast_request<T>(
+        &self,
+        request: lsp_server::Request,
+    ) -> Result<Option<T::Params>, lsp_server::Request>
     where
         T: lsp_types::request::Request,
         T::Params: DeserializeOwned,
     {
-        request
-            .extract(T::METHOD)
-            .map(|val| val.1)
-            .map_err(|e| match e {
-                ExtractError::MethodMismatch(n) => n,
-                err @ ExtractError::JsonError { .. } => panic!("Invalid request: {err:?}"),
-            })
+        let req_id = request.id.clone();
+        match request.extract(T::METHOD) {
+            Ok(val) => Ok(Some(val.1)),
+            Err(ExtractError::MethodMismatch(n)) => Err(n),
+            Err(err @ ExtractError::JsonError { .. }) => {
+                let response = lsp_server::Response::new_err(
+                    req_id,
+                    lsp_server::ErrorCode::InvalidParams as i32,
+                    format!("Invalid request: {err:?}"),
+                );
+                self.sender.send(Message::Response(response)).unwrap();
+                Ok(None)
+            }
+        }
     }
 
     fn send_response<R>(&self, request_id: RequestId, params: R::Result)
@@ -212,7 +228,7 @@ impl<'a> LspServer<'a> {
 
     fn handle_notification(&mut self, notification: &lsp_server::Notification) -> &'static str {
         let _notification = match Self::cast_notification::<notification::Exit>(notification) {
-            Ok(_params) => {
+            Ok(_) => {
                 return notification::Exit::METHOD;
             }
             Err(notification) => notification,
@@ -220,7 +236,8 @@ impl<'a> LspServer<'a> {
 
         let _notification =
             match Self::cast_notification::<notification::DidOpenTextDocument>(notification) {
-                Ok(params) => {
+                Ok(None) => return notification::DidOpenTextDocument::METHOD,
+                Ok(Some(params)) => {
                     trace!("DidChangeTextDocument {}", params.text_document.uri);
                     let contents = params.text_document.text;
                     let uri = params.text_document.uri;
@@ -243,7 +260,8 @@ impl<'a> LspServer<'a> {
 
         let _notification =
             match Self::cast_notification::<notification::DidChangeTextDocument>(notification) {
-                Ok(params) => {
+                Ok(None) => return notification::DidChangeTextDocument::METHOD,
+                Ok(Some(params)) => {
                     trace!("DidChangeTextDocument {}", params.text_document.uri);
                     let uri = params.text_document.uri;
                     let version = params.text_document.version;
@@ -271,19 +289,21 @@ impl<'a> LspServer<'a> {
 
     fn cast_notification<T>(
         notification: &lsp_server::Notification,
-    ) -> Result<T::Params, lsp_server::Notification>
+    ) -> Result<Option<T::Params>, lsp_server::Notification>
     where
         T: lsp_types::notification::Notification,
         T::Params: DeserializeOwned,
     {
         // TODO why do I have this clone?
-        notification
-            .clone()
-            .extract(T::METHOD)
-            .map_err(|e| match e {
-                ExtractError::MethodMismatch(n) => n,
-                err @ ExtractError::JsonError { .. } => panic!("Invalid notification: {err:?}"),
-            })
+        match notification.clone().extract(T::METHOD) {
+            Ok(params) => Ok(Some(params)),
+            Err(ExtractError::MethodMismatch(n)) => Err(n),
+            Err(err @ ExtractError::JsonError { .. }) => {
+                // There is no way to respond to a notification; drop it.
+                error!("Invalid notification: {err:?}");
+                Ok(None)
+            }
+        }
     }
 
     fn send_notification<N>(&self, params: N::Params)
